@@ -21,7 +21,7 @@ fn finish(t: &mut T03, grid: &crate::grid::GridReport, duos: (u64, f64, u64, u64
 /// generic driver: `work(world, duo, tally, item)` over items, chunked over threads
 fn drive<I: Sync + Send>(thorough: bool, items: Vec<I>, threads: usize, work: &(dyn Fn(&World, &mut Duo, &mut T03, &I, usize) + Sync)) -> Value {
     let t0 = std::time::Instant::now();
-    let timeout_ms = if thorough { 120000 } else { 30000 };
+    let timeout_ms = if thorough { 60000 } else { 30000 };
     let nrows = if thorough { 3 } else { 2 };
     let mut duo0 = Duo::new(timeout_ms, false);
     let grid = crate::grid::validate(&mut duo0, false);
